@@ -413,7 +413,7 @@ def fresh_name(prefix):
 
 def seq_eq(a, b, fi=None):
     """Generic-element rule.  Sound in goal position (fresh index is universally read)."""
-    i = fresh_int('ge')
+    i = fi if fi is not None else fresh_int('ge')
     rng = z3.And(i >= 0, i < a.src_len)
     if a.pred is None and b.pred is None:
         return z3.And(a.src_len == b.src_len,
